@@ -586,6 +586,18 @@ def NoKeyTwice (d : SeriesData) : Prop :=
 
 instance (d : SeriesData) : Decidable (NoKeyTwice d) := by unfold NoKeyTwice; infer_instance
 
+/-- the same restricted to a time range: no timestamp *of the range* is held by two containers. -/
+def NoKeyTwiceIn (lo hi : Int) (d : SeriesData) : Prop :=
+  ((containers d).map (fun c => c.filter (inRange lo hi))).Pairwise (fun a b => ∀ x ∈ a, ∀ y ∈ b, x.t ≠ y.t)
+
+instance (lo hi : Int) (d : SeriesData) : Decidable (NoKeyTwiceIn lo hi d) := by
+  unfold NoKeyTwiceIn; infer_instance
+
+theorem NoKeyTwice.restrict {d : SeriesData} (hk : NoKeyTwice d) (lo hi : Int) : NoKeyTwiceIn lo hi d := by
+  unfold NoKeyTwiceIn
+  apply List.pairwise_map.mpr
+  exact hk.imp (fun h x hx y hy => h x (List.mem_filter.mp hx).1 y (List.mem_filter.mp hy).1)
+
 /-! ### `insertRow` on fresh timestamps -/
 
 theorem insertRow_perm {r : Row} {acc : List Row} (h : ∀ x ∈ acc, x.t ≠ r.t) :
@@ -668,7 +680,7 @@ theorem viewRows_eq (lo hi : Int) (d : SeriesData) :
   | nil => rfl
   | cons c cs ih => simp only [List.foldl_cons, List.map_cons, List.flatten_cons, List.foldl_append]; rw [ih]
 
-theorem inRange_rows_distinct {d : SeriesData} (hw : d.WF) (hk : NoKeyTwice d) (lo hi : Int) :
+theorem inRange_rows_distinct {d : SeriesData} (hw : d.WF) {lo hi : Int} (hk : NoKeyTwiceIn lo hi d) :
     (((containers d).map (fun c => c.filter (inRange lo hi))).flatten).Pairwise (fun a b => a.t ≠ b.t) := by
   apply List.pairwise_flatten.mpr
   constructor
@@ -680,8 +692,7 @@ theorem inRange_rows_distinct {d : SeriesData} (hw : d.WF) (hk : NoKeyTwice d) (
       · exact hw.1
       · obtain ⟨ch, hch, rfl⟩ := List.mem_map.mp hc'; exact (hw.2 ch hch).2
     exact (hasc.filter _).imp (fun h => by omega)
-  · apply List.pairwise_map.mpr
-    exact hk.imp (fun h x hx y hy => h x (List.mem_filter.mp hx).1 y (List.mem_filter.mp hy).1)
+  · exact hk
 
 theorem container_asc {d : SeriesData} (hw : d.WF) {c : List Row} (hc : c ∈ containers d) : StrictAsc c := by
   unfold containers at hc
@@ -690,11 +701,11 @@ theorem container_asc {d : SeriesData} (hw : d.WF) {c : List Row} (hc : c ∈ co
   · obtain ⟨ch, hch, rfl⟩ := List.mem_map.mp hc'; exact (hw.2 ch hch).2
 
 /-- the row-level answer is the record merge of the rows in range of all containers. -/
-theorem aggRows_eq_mergeOf {d : SeriesData} (hw : d.WF) (hk : NoKeyTwice d) (lo hi : Int) :
+theorem aggRows_eq_mergeOf {d : SeriesData} (hw : d.WF) {lo hi : Int} (hk : NoKeyTwiceIn lo hi d) :
     aggRows lo hi d = mergeOf (((containers d).map (fun c => c.filter (inRange lo hi))).flatten) := by
   unfold aggRows
   rw [viewRows_eq]
-  have := foldl_insertRow (acc := []) (inRange_rows_distinct hw hk lo hi) (by simp [StrictAsc]) (by simp)
+  have := foldl_insertRow (acc := []) (inRange_rows_distinct hw hk) (by simp [StrictAsc]) (by simp)
   rw [buildStats_eq_mergeOf this.1]
   exact mergeOf_perm (by simpa using this.2)
 
